@@ -64,6 +64,16 @@ M = [
     # (equivalent: at exactly ten packets head + tail without an ellipsis row is still every packet once, in order)
     ("m42", "C19", P + "cli.py", "    if npackets > MAX_ROWS:\n        head_packets", "    if npackets >= MAX_ROWS:\n        head_packets"),
     ("m42b", "C19", P + "cli.py", "        head_packets, tail_packets = packets[:HEAD_ROWS], packets[-HEAD_ROWS:]", "        head_packets, tail_packets = packets[:HEAD_ROWS], packets[-HEAD_ROWS + 1:]"),
+    # less common entry points and options (round 4)
+    ("m44", "C09", P + "xtce/definitions.py", "        tree = ElementTree.parse(xtce_document, parser=xtce_parser)  # noqa: S320",
+     "        tree = ElementTree.parse(xtce_document, parser=None if isinstance(xtce_document, str) else xtce_parser)  # noqa: S320"),
+    ("m45", "C01", P + "xtce/definitions.py", "        root_container_name = root_container_name or self.root_container_name\n\n        # Used to keep track",
+     "        root_container_name = self.root_container_name\n\n        # Used to keep track"),
+    ("m46", "C11", P + "xtce/definitions.py", "            if ccsds_headers_only:\n                yield raw_packet_data", "            if ccsds_headers_only and parse_bad_pkts:\n                yield raw_packet_data"),
+    ("m47", "C12", P + "xtce/definitions.py", "raw_data += p[raw_packet_data.HEADER_LENGTH_BYTES + secondary_header_bytes:]",
+     "raw_data += p[raw_packet_data.HEADER_LENGTH_BYTES + secondary_header_bytes + skip_header_bytes:]"),
+    ("m48", "C18", P + "xarr.py", "            packet_generator = list(xtce_packet_definition.packet_generator(f, **packet_generator_kwargs))",
+     "            packet_generator = list(xtce_packet_definition.packet_generator(f, **{k: v for k, v in packet_generator_kwargs.items() if k != 'skip_header_bytes'}))"),
     ("m43", "C20", P + "common.py", "obj.raw_value = raw_value if raw_value is not None else value", "obj.raw_value = raw_value or value"),
 ]
 
